@@ -23,6 +23,8 @@ def run(ctx, rep):
     run_err_both(ctx, rep, "C12")
     run_signpair(ctx, rep)
     run_partsign(ctx, rep)
+    from ..rules_parse import accumulate
+    accumulate(rep, ctx.prog("Q"))
     from ..rules_ranged import ranged_checked
     ranged_checked(ctx, rep)
     run_loneabs(ctx, rep)
